@@ -18,6 +18,60 @@ CHECKS = {
         "Trusted: the harness' positional model (pinned by the repository's 24 vectors).",
         "DESIGN.md 5/C07",
     ),
+    "C02": (
+        "grammar-based Hypothesis generation of protocol XML trees + differential comparison with an "
+        "independent reference interpreter; metamorphic explicit-defaults pairs",
+        "Generated spec trees are fed to the real code generator, the output is imported and every drawn "
+        "constructible object is serialised; bytes must equal an independent interpretation of the XML "
+        "(reference writer + reference interpreter). Packets: write()/family()/action(). Metamorphic: "
+        "spelling boolean defaults explicitly must not change generated code or bytes. Sampled, not "
+        "exhaustive: ~3k trees / ~20k objects quick, ~40k trees thorough.",
+        "Trusted: vlib/refinterp.py + refio.py as the eo-protocol semantics (silent points follow the "
+        "unchanged tree, DESIGN 3.4); degenerate constructs of DESIGN 4.1 are not generated.",
+        "DESIGN.md 5/C02",
+    ),
+    "C11": (
+        "exhaustive enumeration over 64 process shards against an independent reference formula",
+        "All 16,194,277 three-byte challenges are enumerated in both tiers and compared with the published "
+        "formula evaluated with an explicit truncating remainder written in the harness; the documented "
+        "non-negativity / EO-int bound is checked for every challenge <= 11,092,110. Exhaustive.",
+        "Trusted: the published formula and C remainder convention, pinned by the repository's 15 vectors.",
+        "DESIGN.md 5/C11",
+    ),
+    "C12": (
+        "exhaustive depth-first enumeration of random-source outcomes via function substitution",
+        "The complete choice tree of the three generate() functions is enumerated by substituting the "
+        "random module's draw functions with a scripted source that observes the requested ranges "
+        "(500,755 leaves on the pinned tree); each leaf: no exception, documented value range, field fit, "
+        "reconstruction by the matching from-values constructor. Exhaustive in both tiers; exits 2 if a "
+        "generate() makes no observable draw.",
+        "Trusted: generate() draws only through the random module functions that are substituted "
+        "(anything else is a harness error, not a pass).",
+        "DESIGN.md 5/C12",
+    ),
+    "C13": (
+        "bounded-exhaustive history enumeration + Hypothesis op-list strategy interpreted by a model oracle",
+        "Every history of length 10 (quick) / 13 (thorough) over {next, set(a), set(b)} for four "
+        "constructor-diverse start triples, plus 5,120 / 100,000 Hypothesis-drawn histories of up to 60 "
+        "steps with arbitrary integer start values, checked step by step against start + n mod 10 on two "
+        "lockstep sequencers. Bounded-exhaustive plus sampled.",
+        "Trusted: the counter model in the check; start values are read through .value.",
+        "DESIGN.md 5/C13",
+    ),
+    "C18": (
+        "grammar-based Hypothesis generation of spec trees x generated configurations (hash seed, "
+        "directory-walk permutation, creation order, reruns) with byte-identity and fresh-interpreter "
+        "import oracles",
+        "Each generated valid tree is run through the real generator in-process, again with permuted "
+        "os.walk results / reversed creation order / twice into a pre-populated directory, and in a "
+        "subprocess under a drawn PYTHONHASHSEED; outputs must be byte-identical. A fresh interpreter then "
+        "imports eolib and checks every declared type (class, __module__, exported from its public "
+        "subpackage and from eolib). Sampled: ~320 trees quick, ~4000 thorough. Three open known findings "
+        "(import cycles, empty enum) are pinned and excluded by construction.",
+        "Trusted: the harness' own naming convention (spec.pascal_to_snake) for expected module paths; "
+        "walk orders are simulated; one interpreter (3.12.1).",
+        "DESIGN.md 5/C18",
+    ),
 }
 
 NOT_APPLICABLE = {}
